@@ -536,6 +536,8 @@ def _read_phases(db, lines, i):
                     rxn2.append((nm, c))
                 cur = Phase(name, _strip_state(hname), rxn2, hc, ln)
                 cur.elements = formula_elements(_strip_state(hname))
+                for old in [k for k in db.phases if k.lower() == name.lower()]:
+                    del db.phases[old]          # phase names are case-insensitive: a later definition replaces
                 db.phases[name] = cur
             except ValueError as e:
                 db.problems.append(f"{where}: {e}: {eq.strip()}")
